@@ -25,6 +25,8 @@ Characters are code points.  Code points >= 0x100 are taken to be printable (wri
 sends such strings to the model.  Opaque tokens (trusted, "modelled, not verified"): float bit patterns,
 uuid numbers, and the text form of timestamps.
 -/
+import ForML.Model.Keys
+
 namespace ForML.Tag
 
 /-! ### string level -/
@@ -138,11 +140,13 @@ def unescape : List Nat → Except StrErr (List Nat)
 
 /-- tail of `load_value` for strings:
 `if len(v) > 1 and v[1] == quotechar and (len(v) < 3 or v[1] == v[2]): v = v[2:-2]` then `v[1:-1]` -/
+def looksTriple (v : List Nat) : Bool :=
+  match v with
+  | _ :: b :: rest => b == 34 && (match rest with | [] => true | c :: _ => b == c)
+  | _ => false
+
 def finish (v : List Nat) : List Nat :=
-  let v := match v with
-    | [_, 34] => ((v.drop 2).dropLast).dropLast
-    | _ :: 34 :: 34 :: _ => ((v.drop 2).dropLast).dropLast
-    | _ => v
+  let v := if looksTriple v then ((v.drop 2).dropLast).dropLast else v
   (v.drop 1).dropLast
 
 /-- reading a basic string value -/
@@ -182,7 +186,7 @@ inductive Ordinal where
   | str (s : List Nat)
   | date (y m d : Nat)
   | datetime (t : Ts)
-  | decimal (text : List Nat) (asFloat : Nat)   -- `asFloat` = bits of `float(str(d))`
+  | decimal (text : List Nat) (asInt : Int) (asFloat : Nat)   -- `int(d)`, bits of `float(str(d))`
   deriving DecidableEq, Repr
 
 structure Tag where
@@ -220,7 +224,8 @@ def dumpOrdinal : Ordinal → Except StrErr TVal
   | .bool b => .ok (.bool b)
   | .date y m d => .ok (.date y m d)
   | .datetime t => .ok (.datetime t)
-  | .decimal _ f => .ok (.float f)                 -- `Decimal: _dump_float`
+  | .decimal text i f =>                           -- `Decimal: _dump_float` writes `str(d)`; the reader takes
+    if text.any (fun c => c == 46 || c == 101 || c == 69) then .ok (.float f) else .ok (.int i)  -- it for a float iff `. e E`
   | .str s =>
     match dumpStr s with
     | .ok t => .ok (.strLit t)
